@@ -251,14 +251,27 @@ func witnessByUnification(g *sx.T) *sx.T {
 		if c.Head() != "=" || len(c.L) != 3 {
 			continue
 		}
-		a, b := c.L[1], c.L[2]
-		if a.IsAtom() || b.IsAtom() || a.Head() != b.Head() || !strings.HasPrefix(a.Head(), "ev_") || len(a.L) != len(b.L) {
-			continue
+		// either side may be an ite chain over the events a log holds at a symbolic index: every event leaf is a candidate
+		// (the instance is still proved by the solver, so a wrong candidate costs completeness only)
+		var leaves func(t *sx.T) []*sx.T
+		leaves = func(t *sx.T) []*sx.T {
+			if t.Head() == "ite" && len(t.L) == 4 {
+				return append(leaves(t.L[2]), leaves(t.L[3])...)
+			}
+			return []*sx.T{t}
 		}
-		if e := match(b, a, vars, env); e != nil {
-			env = e
-		} else if e := match(a, b, vars, env); e != nil {
-			env = e
+		done := false
+		for _, a := range leaves(c.L[1]) {
+			for _, b := range leaves(c.L[2]) {
+				if done || a.IsAtom() || b.IsAtom() || a.Head() != b.Head() || !strings.HasPrefix(a.Head(), "ev_") || len(a.L) != len(b.L) {
+					continue
+				}
+				if e := looseMatch(b, a, vars, env); e != nil {
+					env, done = e, true
+				} else if e := looseMatch(a, b, vars, env); e != nil {
+					env, done = e, true
+				}
+			}
 		}
 	}
 	for v := range vars {
@@ -270,6 +283,48 @@ func witnessByUnification(g *sx.T) *sx.T {
 }
 
 // instantiation ---------------------------------------------------------------
+
+// looseMatch binds the variables of p where p and t have the same shape; ground parts of p that differ from t are left
+// to the solver (the instance still states their equality).
+func looseMatch(p, t *sx.T, vars map[string]bool, env map[string]*sx.T) map[string]*sx.T {
+	hasVar := false
+	sx.Walk(p, func(x *sx.T) bool {
+		if x.IsAtom() && vars[x.A] {
+			hasVar = true
+		}
+		return !hasVar
+	})
+	if !hasVar {
+		return env
+	}
+	if p.IsAtom() {
+		if cur, ok := env[p.A]; ok {
+			if sx.Eq(cur, t) {
+				return env
+			}
+			return nil
+		}
+		e := make(map[string]*sx.T, len(env)+1)
+		for k, v := range env {
+			e[k] = v
+		}
+		e[p.A] = t
+		return e
+	}
+	if t.IsAtom() || p.Head() != t.Head() || len(p.L) != len(t.L) {
+		return nil
+	}
+	for i := range p.L {
+		if i == 0 && p.L[0].IsAtom() {
+			continue
+		}
+		env = looseMatch(p.L[i], t.L[i], vars, env)
+		if env == nil {
+			return nil
+		}
+	}
+	return env
+}
 
 func match(p, t *sx.T, vars map[string]bool, env map[string]*sx.T) map[string]*sx.T {
 	if p.IsAtom() {
